@@ -104,6 +104,14 @@ def gen(rng):
     L.append("    mon.write(\"@p\")")
     if has_button:
         L.append("    mon.write(btn.is_pressed())")
+    if rng.random() < 0.3:
+        # an explicit tick() written by the user under a condition that is false at run time: the once-per-pass advance goes on
+        guard = "btn.is_pressed()" if has_button else rng.choice(["npasses > 100000", "npasses < 0"])
+        if not has_button:
+            L.insert(L.index("while True:"), "npasses = 0")
+            L.append("    npasses += 1")
+        L.append(f"    if {guard}:")
+        L.append(f"        {nm[0]}.tick()" if rng.random() < 0.5 else f"        {nm[0]}.tick(0)")
     L.append(f"    sleep({period})")
     return "\n".join(L) + "\n", anims, lcds, period
 
